@@ -268,7 +268,11 @@ static void run_ops(vh_rng* r, struct world* w, int nops, const char* who) {
     struct held* h = &w->h[slot];
     if (roll < 22) {
       /* managed object, held or dropped at once */
-      int64_t id; var p = new_probe(r, HK_MANAGED, &id);
+      /* one in five held objects (outside stop windows) has a destructor that allocates: deleted by hand later, what
+         it allocates then is registered like any other allocation and finalised by a collection or at teardown */
+      int64_t id; var p;
+      if (!w->stopped && vh_chance(r, 20)) { p = new_spawner(r); id = ((struct PSpawn*)p)->id; vh_count("held_objects_whose_destructors_allocate"); }
+      else { p = new_probe(r, HK_MANAGED, &id); }
       if (vh_chance(r, 50)) {
         if (h->p) { delete_held(h, w->stopped ? "-inside-stop-window" : ""); }
         h->p = p; h->how = w->stopped ? HK_UNREGISTERED : HK_MANAGED; h->id = id; h->is_box = 0;
